@@ -186,3 +186,45 @@ Proof.
 Qed.
 
 End NCBILoop.
+
+(* ---- SubstitutionMatrix.Symmetrical (align.go), floats as canonical texts --------------------------- *)
+Lemma assoc2_is_mlookup (m : smatrix) a b : assoc2 m a b = mlookup (a, b) m.
+Proof.
+  induction m as [|[[x y] v] r IH]; cbn [assoc2 mlookup]; [reflexivity|]. unfold keqb. cbn [fst snd].
+  rewrite (N.eqb_sym x a), (N.eqb_sym y b). destruct ((a =? x)%N && (b =? y)%N); [reflexivity|exact IH].
+Qed.
+
+Definition sym_body (m : list ((N * N) * F)) : Z * ((N * N) * F) -> list ((N * N) * F) -> res (list ((N * N) * F)) (list ((N * N) * F)) :=
+  fun p => (fun (_ : Z) '(k, v) result => let result := (go_map_set2 k v result) in let flip := ((snd k), (fst k)) in (if (negb (N.eqb (fst k) (snd k))) then let '(t__1, t__2) := match assoc2 m (fst flip) (snd flip) with Some v__ => (v__, true) | None => ([48%N], false) end in let v2 := t__1 in let ok := t__2 in (if (andb ok (negb (go_feq v2 v))) then Panics else let result := (go_map_set2 flip v result) in Next result) else let result := (go_map_set2 flip v result) in Next result)) (fst p) (snd p).
+
+Lemma sym_loop (m : smatrix) : forall (es : smatrix) j res,
+  go_iter (sym_body m) (combine (zseq j (length es)) es) res
+  = match fold_left (sym_step m) es (Ok res) with
+    | Ok r => Next r
+    | _ => Panics
+    end.
+Proof.
+  induction es as [|[k v] es IH]; intros j res; cbn [length]; [reflexivity|].
+  rewrite zseq_cons. cbn [combine go_iter fold_left]. unfold sym_body at 1. cbn [fst snd]. cbv beta iota zeta.
+  unfold sym_step at 2. cbn [obind fst snd]. unfold flip. cbn [fst snd].
+  rewrite !map_set2_is_mset, assoc2_is_mlookup.
+  assert (Hp : forall l, fold_left (sym_step m) l Panic = Panic) by (induction l; [reflexivity|assumption]).
+  unfold smatrix, key, byte in *. destruct k as [a b]. cbn [fst snd].
+  destruct (negb (a =? b)%N).
+  - destruct (mlookup (b, a) m) as [v2|]; cbv beta iota.
+    + cbn [andb]. unfold go_feq. destruct (negb (feq v2 v)).
+      * rewrite Hp. reflexivity.
+      * apply IH.
+    + cbn [andb]. apply IH.
+  - apply IH.
+Qed.
+
+Theorem imp_Symmetrical (m : smatrix) :
+  imp_alignf_SubstitutionMatrix_Symmetrical m
+  = match symmetrical m with Ok r => Ret r | _ => Panics end.
+Proof.
+  unfold imp_alignf_SubstitutionMatrix_Symmetrical, symmetrical. cbv zeta.
+  unfold go_range, indexed.
+  change (go_iter _ ?l []) with (go_iter (sym_body m) l []).
+  rewrite sym_loop. unfold smatrix, key, byte in *. destruct (fold_left (sym_step m) m (Ok [])); reflexivity.
+Qed.
